@@ -455,3 +455,51 @@ def ro_program(rng, pid, cfg, cs, n_ops, end_setup="unmount", poke=None, end="un
             ops.append({"op": "open_dir", "at": "", "path": rng.choice(dirs) if dirs else "x"})
     ops.append({"op": end})
     return {"id": pid, "cfg": cfg, "ops": ops, "origin": "random:ro"}
+
+
+def fault_program(pid, cfg, cs):
+    """one representative history touching every operation kind (C09): every device call of every
+    operation is failed once by the `faults` driver"""
+    ops = [
+        {"op": "create_dir", "at": "", "path": "dir"},
+        {"op": "create_file", "at": "", "path": "dir/Long name of a file.txt", "as": "h"},
+        {"op": "write_all", "h": "h", "pat": 1, "len": 2 * cs + cs // 2},
+        {"op": "flush", "h": "h"},
+        {"op": "seek", "h": "h", "from": "start", "off": cs + 1},
+        {"op": "read", "h": "h", "len": cs},
+        {"op": "seek", "h": "h", "from": "end", "off": -1},
+        {"op": "seek", "h": "h", "from": "start", "off": cs + 1},
+        {"op": "truncate", "h": "h"},
+        {"op": "set_modified", "h": "h", "t": [2001, 2, 3, 4, 5, 6, 0]},
+        {"op": "close", "h": "h"},
+        {"op": "create_file", "at": "", "path": "x", "as": "h2"},
+        {"op": "write_all", "h": "h2", "pat": 2, "len": 4 * cs},
+        {"op": "close", "h": "h2"},
+        {"op": "rename", "at": "", "src": "x", "to": "", "dst": "renamed in place.dat"},
+        {"op": "rename", "at": "", "src": "renamed in place.dat", "to": "", "dst": "dir/y"},
+        {"op": "open_dir", "at": "", "path": "dir", "as": "d"},
+        {"op": "list", "at": "d", "path": ""},
+    ]
+    # make the sub-directory grow: 16 slots per 512-byte cluster, 3 slots per entry
+    for k in range(max(2, cs // 32 // 3)):
+        ops.append({"op": "create_file", "at": "d", "path": "entry number %02d.long" % k})
+    ops += [
+        {"op": "create_dir", "at": "d", "path": "sub directory"},
+        {"op": "open_file", "at": "", "path": "DIR/Y", "as": "h3"},
+        {"op": "read_all", "h": "h3", "len": 5 * cs},
+        {"op": "extents", "h": "h3"},
+        {"op": "close", "h": "h3"},
+        {"op": "stats"},
+        {"op": "status"},
+        {"op": "info"},
+        {"op": "remove", "at": "", "path": "dir/y"},
+        {"op": "remove", "at": "d", "path": "sub directory"},
+        {"op": "closedir", "h": "d"},
+        {"op": "unmount"},
+        {"op": "stats"},
+        {"op": "create_file", "at": "", "path": "after remount", "as": "h4"},
+        {"op": "write_all", "h": "h4", "pat": 3, "len": cs + 1},
+        {"op": "close", "h": "h4"},
+        {"op": "dropfs"},
+    ]
+    return {"id": pid, "cfg": cfg, "ops": ops, "origin": "fixed:fault-history"}
